@@ -174,27 +174,21 @@ def fld_enc(ctx):
         is_ascii = val[0] == "adt" and val[1] == ET and val[2] == "Ascii"
         if is_ascii:
             obs.append(Ob(r, "encodation:%s:ascii" % fnc.split("::")[-1], True, "%s sets the mode to the constant Ascii" % fnc, site=site))
-        elif fnc.endswith("maybe_switch_mode") and val[0] == "var" and val[1] == "new_mode":
-            # new_mode is assigned from planned_switches.remove(0).1 or from self.encodation
-            l = _local_by_name(body, "new_mode")
-            srcs = []
-            okv = True
-            for d in body.defs().get(l, []):
-                if d[2] == "assign":
-                    e = body.expr_of_rvalue(d[3]["rv"])
-                    srcs.append(M.show(e))
-                    from_plan = e[0] == "field" and e[2] == "1" and e[1][0] == "var" and e[1][1] == "switch"
-                    from_self = e[0] == "field" and e[2] == "encodation"
-                    okv = okv and (from_plan or from_self)
-                else:
-                    okv = False
-            # `switch` is the value removed from the front of planned_switches
-            sl = _local_by_name(body, "switch")
-            sd = [d for d in body.defs().get(sl, []) if d[2] == "call" and "Vec" in (d[3].get("callee") or "")]
-            okr = len(sd) == 1 and T.canon(sd[0][3]["callee"]).endswith("Vec::remove") and \
-                any(isinstance(x, tuple) and x[0] == "field" and x[2] == "planned_switches" for x in M.walk(body.expr_of_operand(sd[0][3]["args"][0])))
-            obs.append(Ob(r, "encodation:maybe_switch_mode", okv and okr,
-                          "maybe_switch_mode sets the mode only to the mode of the planned switch it removes (or keeps the current one)", site=site, detail=srcs))
+        elif fnc.endswith("maybe_switch_mode"):
+            # every value that can reach the store is the mode (.1) of the entry removed from the front of
+            # planned_switches, or the current mode itself
+            srcs = sorted(body.origins(val), key=repr)
+
+            def from_plan(e):
+                return e[0] == "field" and e[2] == "1" and e[1][0] == "call" and T.canon(e[1][1]).endswith("Vec::remove") and len(e[1][2]) == 2 \
+                    and any(isinstance(x, tuple) and x[0] == "field" and x[2] == "planned_switches" for x in M.walk(e[1][2][0])) \
+                    and e[1][2][1][:2] == ("const", 0)
+
+            def from_self(e):
+                return e[0] == "field" and e[2] == "encodation" and e[1][0] in ("arg", "deref") and "self" in repr(e[1])
+            okv = bool(srcs) and all(from_plan(e) or from_self(e) for e in srcs)
+            obs.append(Ob(r, "encodation:maybe_switch_mode", okv and any(from_plan(e) for e in srcs),
+                          "maybe_switch_mode sets the mode only to the mode of the planned switch it removes (or keeps the current one)", site=site, detail=[M.show(e) for e in srcs]))
         else:
             obs.append(Ob(r, "encodation:%s:other" % fnc.split("::")[-1], False,
                           "unexpected writer of GenericDataEncoder.encodation in %s: %s" % (fnc, M.show(val)), site=site))
@@ -317,9 +311,9 @@ def latch_use(ctx):
     # the only encoder push of a pending latch: codewords() pushes new_mode.take()
     cw = [n for n in f.thir if T.canon(n).endswith("GenericDataEncoder::codewords")]
     need(len(cw) == 1, r, "GenericDataEncoder::codewords")
-    sts, _ = T.fn_stmts(f, cw[0])
+    deep = T.fn_stmts_deep(f, cw[0], only=lambda c: "GenericDataEncoder" in c)
     found = False
-    for s in T.stmt_walk(sts):
+    for s in (x for _n, ss in deep for x in T.stmt_walk(ss)):
         if s[0] == "if" and s[1][0] == "iflet" and s[1][3] == "Some":
             src = s[1][1]
             if src[0] == "call" and src[1].endswith("Option::take") and src[2][0][0] == "field" and src[2][0][2] == "new_mode":
